@@ -18,6 +18,8 @@ for s in sorted(res):
     prop = s.split("-")[0]
     if s == "C07-K" and (not v or "error" in v):
         print("| %s | %s | neutralised by fix ef105cc: the edge it adds for a Simple initializer is now in the tree, together with the cut for VAR_EXTERNAL declarations whose absence was the seed's defect; caught before that by C07 R-C07-edges (reference-kind clause) |" % (s, desc.get(s, ""))); continue
+    if s == "C06-P":
+        print("| %s | %s | retired: after the type-resolver fixes (bb12be8, c0adbbb) the patch needed a rebase, and on the rebased tree its demonstration holds for every arrangement (the sort now visits the uses in one order for that unit); not counted. Caught before that by C06 R-C06-firstwins |" % (s, desc.get(s, ""))); continue
     if s == "C12-C" and (not v or "error" in v):
         print("| %s | %s | retired: fix 61668f6 (a problem is published at the label that lies in the document) removed its mechanism - the label handed to map_label is now always one of the document, so looking the text up once per document is correct; caught before that by C12 R-C12-panic, C05 R-C05-prov |" % (s, desc.get(s, ""))); continue
     if not isinstance(v, dict) or "error" in v:
